@@ -29,7 +29,9 @@ State = T.Dict[str, Status]
 STORE = '_container'
 QUEUES = ('pre', 'post')
 FLUSH = 'flush_pre_post'
-DESIGN_READERS = ('__iadd__', '__len__')   # by design they look at _container, pre and post together without flushing
+DESIGN_READERS = ('__iadd__',)   # by design it looks at _container, pre and post together without flushing (the UNIQUE test)
+# (__len__ used to be listed: counting the three stores is NOT the eager length while duplicates of overridden arguments are
+#  pending -- len() is off and reversed() raises IndexError -- so it is held to the flush-before-read rule like every reader)
 QUEUE_MUTATORS = {'append', 'appendleft', 'extend', 'extendleft', 'insert', 'add', 'update', '__iadd__'}
 EMPTY_CTORS = {'collections.deque', 'deque', 'list', 'tuple', 'set', 'dict'}
 
@@ -49,6 +51,7 @@ BUILTIN_ON_ARG = {
 }
 
 
+BOUND = '@m:'                       # state key prefix: local name bound to a method of a tracked receiver (`f = X.flush_pre_post`)
 HANDLE = '@h:'                      # state key prefix: local name bound to X._container / a bound method of it
 NOT_HANDLE: Status = (CLEAN, '')
 MIXED: Status = (DIRTY, '<mixed>')
@@ -61,7 +64,7 @@ def join(a: Status, b: Status) -> Status:
 def join_states(a: State, b: State, default: T.Callable[[str], Status]) -> State:
     out: State = {}
     for k in set(a) | set(b):
-        if k.startswith(HANDLE):
+        if k.startswith('@'):
             x, y = a.get(k, NOT_HANDLE), b.get(k, NOT_HANDLE)
             out[k] = x if x == y else MIXED
         else:
@@ -639,7 +642,14 @@ class Analysis:
     def stmt(self, s: ast.stmt, st: State) -> None:
         if isinstance(s, (ast.FunctionDef, ast.AsyncFunctionDef, ast.ClassDef)):
             return
+        if isinstance(s, ast.Assign) and len(s.targets) == 1 and isinstance(s.targets[0], ast.Name) and self._bound_method(s.value) is not None:
+            recv, meth = T.cast(T.Tuple[str, str], self._bound_method(s.value))
+            st[BOUND + s.targets[0].id] = (CLEAN, f'{recv}|{meth}')     # A3: method selected first, called later
+            return
         if isinstance(s, ast.Assign):
+            for t in s.targets:
+                if isinstance(t, ast.Name):
+                    st.pop(BOUND + t.id, None)
             self.ev(s.value, st, False)
             res = self.expr_status(s.value, st)
             for t in s.targets:
@@ -689,6 +699,14 @@ class Analysis:
             self.ev(ch, st, False)
 
     _ret_seen_final = False
+
+    def _bound_method(self, e: ast.AST) -> T.Optional[T.Tuple[str, str]]:
+        """`X.m` (not called) with X a tracked list and m a method of the family."""
+        if isinstance(e, ast.Attribute) and isinstance(e.ctx, ast.Load):
+            k = attr_chain(e.value)
+            if k is not None and k in self.tracked and (e.attr == FLUSH or self.fam.summary(self.dispatch, e.attr) is not None):
+                return k, e.attr
+        return None
 
     def _queue_of(self, e: ast.AST) -> T.Optional[str]:
         """`X.pre` / `X.post` with X tracked -> key of X."""
@@ -860,6 +878,13 @@ class Analysis:
             self.ev(e.value, st, cond)
             if e.attr == STORE:
                 self.access(e, st)
+            bm = self._bound_method(e)
+            if bm is not None:
+                # a method of the list escapes uncalled (stored in a container, passed on ...): whoever calls it later may
+                # flush or queue -> the state of the list is not known from here on
+                cur = self.get(st, bm[0])
+                st[bm[0]] = (UNKNOWN, f'the bound method `{norm(e)}` is taken without being called; it may be called later')
+                del cur
             return
         if isinstance(e, ast.BoolOp):
             self.ev(e.values[0], st, cond)
@@ -967,6 +992,15 @@ class Analysis:
         if isinstance(f, ast.Attribute) and isinstance(f.value, ast.Call) and attr_chain(f.value.func) == 'super' and self.is_method:
             self.call_ret[id(e)] = self.method_effect('self', f.attr, st, cond, e)
             return
+        if isinstance(f, ast.Name) and (BOUND + f.id) in st:
+            b = st[BOUND + f.id]
+            if b == MIXED:
+                raise Undecided(f'{self.qname}: `{f.id}` is a bound method of a lazy list on some paths only')
+            if b[1]:
+                recv, meth = b[1].split('|')
+                self.arg_effects(e, args, st, cond, f'`{recv}.{meth}`')
+                self.call_ret[id(e)] = self.method_effect(recv, meth, st, cond, e)
+                return
         name = attr_chain(f)
         if name in BUILTIN_ON_ARG:
             for a in args:
@@ -1031,4 +1065,4 @@ def _is_empty(v: ast.AST) -> bool:
 
 
 def _lv(st: State) -> T.Dict[str, T.Any]:
-    return {k: (v if k.startswith(HANDLE) else v[0]) for k, v in st.items() if not (k.startswith(HANDLE) and v == NOT_HANDLE)}
+    return {k: (v if k.startswith('@') else v[0]) for k, v in st.items() if not (k.startswith('@') and v == NOT_HANDLE)}
